@@ -10,11 +10,11 @@
 From Coq Require Import List Arith Bool Lia.
 Import ListNotations.
 Require Import MRB.Model.Types MRB.Model.Seq MRB.Spec.Pipe MRB.Model.Trace.
-Require Import MRB.Conc.RA MRB.Conc.RAg MRB.Conc.RAn MRB.Conc.RAnproof MRB.Conc.RA3 MRB.Conc.RA3g MRB.Proofs.ConcClosing MRB.Proofs.Rel MRB.Proofs.SpecFacts MRB.gen.Profile.
+Require Import MRB.Conc.RA MRB.Conc.RAg MRB.Conc.RAn MRB.Conc.RAnproof MRB.Conc.RA3 MRB.Conc.RA3g MRB.Conc.RA3n MRB.Conc.RA3nproof MRB.Proofs.ConcClosing MRB.Proofs.Rel MRB.Proofs.SpecFacts MRB.gen.Profile.
 
 Theorem C03_race_free_three_stages :
   forall p : profile, profile_ok p = true -> forall (len : nat) (script : list (tid * nat)), 0 < len ->
-  race3 (gexec3 (ge_acq (p_idx_load p)) (ge_rel (p_idx_store p)) len (ginit3 len) script) = false.
+  RA3.race3 (gexec3 (ge_acq (p_idx_load p)) (ge_rel (p_idx_store p)) len (ginit3 len) script) = false.
 Proof. exact ConcClosing.race_free_3stage. Qed.
 Print Assumptions C03_race_free_three_stages.
 
@@ -31,13 +31,19 @@ Theorem C03_race_free_slices :
 Proof. exact RAnproof.spsc_n_race_free. Qed.
 Print Assumptions C03_race_free_slices.
 
+Theorem C03_race_free_slices_three_stages :
+  forall (len : nat) (script : list (RA3.tid * nat * nat)), 0 < len ->
+  RA3n.race3 (RA3n.exec3_n len (RA3n.init3_n len) script) = false.
+Proof. exact RA3nproof.pipeline3_n_race_free. Qed.
+Print Assumptions C03_race_free_slices_three_stages.
+
 (** the orderings the source really passes (regenerated on every run) satisfy the hypothesis *)
 Theorem C03_observed_ok : profile_ok Profile.observed = true /\ Profile.extractor_clean = true.
 Proof. vm_compute. split; reflexivity. Qed.
 Print Assumptions C03_observed_ok.
 
 Theorem C03_source : forall (len : nat) (script : list (tid * nat)), 0 < len ->
-  race3 (gexec3 (ge_acq (p_idx_load Profile.observed)) (ge_rel (p_idx_store Profile.observed)) len (ginit3 len) script) = false.
+  RA3.race3 (gexec3 (ge_acq (p_idx_load Profile.observed)) (ge_rel (p_idx_store Profile.observed)) len (ginit3 len) script) = false.
 Proof. exact (ConcClosing.race_free_3stage Profile.observed (proj1 C03_observed_ok)). Qed.
 Print Assumptions C03_source.
 
@@ -53,5 +59,5 @@ Print Assumptions C03_windows_disjoint.
 (** non-vacuity: the detector finds the race when an ordering is weakened *)
 Example C03_relaxed_load_races : RA.race (gexec false true 2 (ginit 2) [(true, 0); (true, 0); (true, 0); (false, 1); (false, 0)]) = true.
 Proof. exact RAg.relaxed_load_races. Qed.
-Example C03_relaxed_worker_load_races : race3 (gexec3 false true 2 (ginit3 2) [(TP, 0); (TP, 0); (TP, 0); (TW, 1); (TW, 0)]) = true.
+Example C03_relaxed_worker_load_races : RA3.race3 (gexec3 false true 2 (ginit3 2) [(TP, 0); (TP, 0); (TP, 0); (TW, 1); (TW, 0)]) = true.
 Proof. exact RA3g.relaxed_worker_load_races. Qed.
